@@ -23,6 +23,12 @@ int main(int argc, char** argv)
     specs.back().enum_total = api::c07_enum_total<3>();
     add("C07.enum2", api::prop_c07_enum<2>, 1, 1, 1);
     specs.back().enum_total = api::c07_enum_total<2>();
+    add("C07.dfs4", api::prop_c07_dfs4, 1, 1, 1);
+    specs.back().enum_total = api::c07_dfs_total(4, 3);
+    add("C07.dfs5", api::prop_c07_dfs5, 1, 1, 1);
+    specs.back().enum_total = api::c07_dfs_total(5, 3);
+    add("C07.dfs4all", api::prop_c07_dfs4all, 1, 1, 1);
+    specs.back().enum_total = api::c07_dfs_total(4, 18);
     add("C08", api::prop_c08, 3, 28, 12);
     add("C09", api::prop_c09, 3, 28, 12);
     add("C10", api::prop_c10, 3, 20, 260);
